@@ -37,7 +37,7 @@ ASSUMPTIONS = ['reuse of one Parser object is documented as stateful and is not 
 BUDGET_S = {'quick': 75, 'thorough': 800}
 REQUIRED_HITS = ['golden_from_fresh_process', 'sequential_call', 'entry_point_call', 'concurrent_call', 'overlapping_pairs',
                  'yield_injected', 'shared_state_compared']
-FLOOR = {'quick': 2000, 'thorough': 20000}
+FLOOR = {'quick': 2000, 'thorough': 10000}
 MAX_SHARDS = 16
 
 VERIF = os.path.dirname(os.path.dirname(os.path.dirname(os.path.abspath(__file__))))
@@ -266,6 +266,13 @@ def run(ctx):
             if state0.get(k) != now.get(k):
                 ctx.violation('C15:shared_state_changed:%s' % k.split('.')[-1].split('_')[0],
                               {'phase': phase, 'object': k}, 'shared object %s changed during %s' % (k, phase))
+
+    # a first, short round of the thread phases, so that they are observed whatever the load on the machine
+    # does to the time the sequential phases take (the long rounds follow below)
+    first_pool = [(i, f) for i in (2, 3, 7, 8, 11, 27) for f in (False, True)]
+    concurrent_phase(ctx, gold, 8, 3, 1e-5, False, 'first_interval_1e-05', first_pool)
+    concurrent_phase(ctx, gold, 6, 2, 1e-5, True, 'first_yield_injection', first_pool)
+    state_check('first thread round')
 
     # (a) all ordered pairs, partitioned
     idx = 0
